@@ -363,6 +363,10 @@ def gaussian_filter1d(array, sigma, axis=-1, order=0, mode='reflect', cval=0., o
         weights *= (3.0 - x*x/s2)*x/(s2*s2)
     else:
         raise ValueError('mahotas.convolve.gaussian_filter1d: Order outside 0..3 not implemented')
+    if order % 2:
+        # convolve1d computes a correlation, so the (antisymmetric)
+        # odd-derivative kernels must be flipped
+        weights = weights[::-1].copy()
     return convolve1d(array, weights, axis, mode, cval, out=output)
 
 
